@@ -122,13 +122,13 @@ func runC04(r *Run, p *Prog) {
 		r.Unresolved("T1", "dispatch entry (function reachable from HandleMessage that decodes the request and invokes VarlinkDispatch)")
 		return
 	}
-	ds := decodeSites(hm)
+	ds := decodeSitesDeep(p, hm)
 	if len(ds) != 1 {
 		r.Unresolved("T6", fmt.Sprintf("exactly one decode of the request in HandleMessage (found %d)", len(ds)))
 		return
 	}
 	dec := ds[0]
-	decErr := T.T(dec.Call)
+	decErr := dec.ErrTerm(T)
 	// the method string: member with JSON key "method" of the decode target
 	st := derefStruct(dec.Target.Type())
 	if st == nil {
@@ -435,7 +435,7 @@ func runC04(r *Run, p *Prog) {
 
 func dispatchEntry(p *Prog, ro *Roles) *ssa.Function {
 	for f := range ro.CG.Reach([]*ssa.Function{ro.Handle}, false) {
-		if fnPkgPath(f) != pkgVarlink || len(decodeSites(f)) == 0 {
+		if fnPkgPath(f) != pkgVarlink || len(decodeSitesDeep(p, f)) == 0 {
 			continue
 		}
 		for _, cs := range callsIn(f, false) {
